@@ -18,7 +18,26 @@ def load_contracts():
 
     for m in sorted(pkgutil.iter_modules(contracts.__path__), key=lambda x: x.name):
         importlib.import_module(f"contracts.{m.name}")
+    check_lemma_slots(REG)
     return REG
+
+
+_LEMMA_CALL = None
+
+
+def check_lemma_slots(reg):
+    """the slots `lemmas`, Loop.lemmas, entry_lemmas and exit_lemmas are ASSUMED: they may only hold instances of lemma
+    schemas (L_...: theorems with their own proof obligations, or definitional unfoldings).  Any other formula belongs
+    into `cuts` / `exit_asserts`, where it is proved before it is used."""
+    import re
+
+    pat = re.compile(r"^\s*(all\(\s*)?(implies\(.*,\s*)?(.*\bor\s+)?(old\()?L_\w+\(")
+    bad = []
+    for q, c in reg.contracts.items():
+        items = [e for es in c.lemmas.values() for e in es] + [e for l in c.loops.values() for e in l.lemmas] + list(c.entry_lemmas) + list(c.exit_lemmas)
+        bad += [f"{q}: {e[:100]}" for e in items if not pat.match(e)]
+    if bad:
+        raise RuntimeError("assumed formulas that are not lemma instances:\n  " + "\n  ".join(bad))
 
 
 def targets(reg, repo, props=None, only=None):
